@@ -964,6 +964,9 @@ func rulePanic(sc panicScope) ruleFn {
 			if ok, why := r.P.proveBounds(path, info); ok {
 				r.OK("R7.P1", name, construct, site, why)
 				continue
+			} else if why2, ok2 := r.chunkSliceProver(fn, path[0].(ast.Expr)); ok2 {
+				r.OK("R7.P1", name, construct, site, why2)
+				continue
 			} else if reason, tabled := useTable(r, boundsTable, name+"/"+construct); tabled {
 				r.Tabled("R7.P1", name, construct, site, "bounds", reason)
 				continue
@@ -1853,4 +1856,116 @@ func ifaceCompareRisk(x *ssa.BinOp) (string, bool) {
 		return "", false
 	}
 	return "neither side is nil, a constant, a conversion from a comparable type or a package-level sentinel", true
+}
+
+// chunkSliceProver: the slice `inputs[i*m : hi]` in the chunk body of MultiOpQueryer.Query (the
+// map closure of its AsyncMapReduce call, or the one function that closure hands its index to).
+// i is drawn from lo.Range(len(inputs)/m + 1), so i*m <= len(inputs); hi is absent or is
+// min((i+1)*m, len(inputs)) written as a clamp, so i*m <= hi <= len(inputs) (m = maxBatchSize is
+// positive: NewMultiOpQueryer callers pass a constant; same assumption as the tabled entries).
+func (r *Run) chunkSliceProver(fn *ssa.Function, e ast.Expr) (string, bool) {
+	se, ok := e.(*ast.SliceExpr)
+	if !ok {
+		return "", false
+	}
+	var sl *ssa.Slice
+	for _, ins := range allInstrs(fn) {
+		if s, ok := ins.(*ssa.Slice); ok && s.Pos() == se.Lbrack {
+			sl = s
+		}
+	}
+	if sl == nil || sl.Low == nil || sl.Max != nil {
+		return "", false
+	}
+	var idx *ssa.Parameter
+	for _, p := range fn.Params {
+		if lowIsIdxTimesBatch(sl.Low, p) {
+			idx = p
+		}
+	}
+	if idx == nil {
+		return "", false
+	}
+	// fn is the chunk body of a POS-chunks fan-out whose payload is lo.Range(len/m + 1)
+	isBody := false
+	for _, site := range r.P.Funcs {
+		if class, ok := reducerTable[fnName(site)]; !ok || class.kind != "POS-chunks" {
+			continue
+		}
+		{
+			call, mapF, _ := r.amrSite(site)
+			if call == nil || mapF == nil || len(mapF.Params) != 1 || len(call.Call.Args) != 4 {
+				continue
+			}
+			body, bidx := chunkBody(r, mapF, mapF.Params[0])
+			if body == nil {
+				body, bidx = mapF, mapF.Params[0]
+			}
+			if body != fn || bidx != idx {
+				continue
+			}
+			// payload: lo.Range(len(S)/m + 1)
+			rc, ok := unwrap(call.Call.Args[0]).(*ssa.Call)
+			if !ok || !strings.HasSuffix(strings.SplitN(calleeName(&rc.Call), "[", 2)[0], "lo.Range") || len(rc.Call.Args) != 1 {
+				continue
+			}
+			add, ok := viaCell(unwrap(rc.Call.Args[0])).(*ssa.BinOp)
+			if !ok || add.Op != token.ADD {
+				continue
+			}
+			var quo *ssa.BinOp
+			if isIntConst(add.Y, 1) {
+				quo, _ = viaCell(unwrap(add.X)).(*ssa.BinOp)
+			} else if isIntConst(add.X, 1) {
+				quo, _ = viaCell(unwrap(add.Y)).(*ssa.BinOp)
+			}
+			if quo == nil || quo.Op != token.QUO || !dependsOnField(quo.Y, "maxBatchSize") {
+				continue
+			}
+			if lc, ok := viaCell(unwrap(quo.X)).(*ssa.Call); ok {
+				if b, ok := lc.Call.Value.(*ssa.Builtin); ok && b.Name() == "len" && types.Identical(lc.Call.Args[0].Type(), sl.X.Type()) {
+					isBody = true
+				}
+			}
+		}
+	}
+	if !isBody {
+		return "", false
+	}
+	lenOfX := func(v ssa.Value) bool {
+		c, ok := viaCell(unwrap(v)).(*ssa.Call)
+		if !ok {
+			return false
+		}
+		b, ok := c.Call.Value.(*ssa.Builtin)
+		return ok && b.Name() == "len" && (c.Call.Args[0] == sl.X || viaCell(c.Call.Args[0]) == viaCell(sl.X))
+	}
+	nextChunk := func(v ssa.Value) bool {
+		bo, ok := v.(*ssa.BinOp)
+		if !ok || bo.Op != token.MUL {
+			return false
+		}
+		plus1 := func(x ssa.Value) bool {
+			a, ok := x.(*ssa.BinOp)
+			return ok && a.Op == token.ADD && ((a.X == ssa.Value(idx) && isIntConst(a.Y, 1)) || (a.Y == ssa.Value(idx) && isIntConst(a.X, 1)))
+		}
+		return (plus1(bo.X) && dependsOnField(bo.Y, "maxBatchSize")) || (plus1(bo.Y) && dependsOnField(bo.X, "maxBatchSize"))
+	}
+	if sl.High == nil {
+		return "chunk arithmetic: the chunk index is drawn from lo.Range(len/m + 1), so index*m <= len of the sliced inputs", true
+	}
+	if phi, ok := sl.High.(*ssa.Phi); ok && len(phi.Edges) == 2 {
+		var e, l ssa.Value
+		for _, ed := range phi.Edges {
+			if lenOfX(ed) {
+				l = ed
+			} else if nextChunk(ed) {
+				e = ed
+			}
+		}
+		if e != nil && l != nil {
+			return "chunk arithmetic: low = index*m with index < len/m + 1, high = min((index+1)*m, len) written as a clamp", true
+		}
+	}
+	return "", false
 }
